@@ -2,6 +2,8 @@ import Proofs.C14Layout
 import Proofs.C14Mean
 import Proofs.C14PamRun
 import Proofs.C01Examples
+import Proofs.C14Compose
+import Props.C01
 /-!
 C14 — MPI-striped clustering and reductions equal their serial counterparts.
 
@@ -68,6 +70,23 @@ example : assembleStripedRagged 4 [3, 5, 2, 4, 1, 6, 2]
     (fun r => (stripe 4 (splitBy [3, 5, 2, 4, 1, 6, 2] (List.range 23)) r).flatten) = .ok (List.range 23) := by
   decide
 example : assembleStripedRagged 3 [3, 2] (fun _ => [0]) = .error .indexError := by decide
+
+/-! ## `assemble_striped_array` (striped gather) -/
+
+/-- "Striped gathers": for every world size `w ≥ 1` and every array of positive integers (the
+    trajectory lengths it is used for), gathering the stripes `xs[r::w]` returns `xs` on every
+    rank (the model's result is the value every rank receives); with more than one rank a
+    non-positive entry raises ImproperlyConfigured, as the code does. -/
+theorem assemble_striped_array_correct (w : Nat) (hw : 0 < w) (xs : List Int) :
+    ((∀ x ∈ xs, 0 < x) → assembleStripedArray w (fun r => stripe w xs r) = .ok xs) ∧
+    (w ≠ 1 → (∃ x ∈ xs, x ≤ 0) →
+      assembleStripedArray w (fun r => stripe w xs r) = .error .improperlyConfigured) :=
+  assembleStripedArray_stripes w hw xs
+
+example : assembleStripedArray 3 (fun r => stripe 3 [4, 1, 7, 2, 9, 3, 5] r) = .ok [4, 1, 7, 2, 9, 3, 5] := by decide
+example : assembleStripedArray 3 (fun r => stripe 3 [4, 1, 0, 2] r) = .error .improperlyConfigured := by decide
+-- a layout that is not packed cannot be gathered (numpy refuses the assignment)
+example : assembleStripedArray 2 (fun r => if r = 0 then [1, 2, 3] else [4]) = .error .valueError := by decide
 
 /-! ## `striped_array_max` -/
 
@@ -147,17 +166,24 @@ def C14_kmedoids_inputs_full : Prop :=
     (∀ ps, warm = some ps → ∀ p ∈ ps, ∃ l, L[p.1]? = some l ∧ p.2 < l) →
     ∃ cs, kmedoidsInputsMpi w L warm = .ok cs
 
-/-- proved part: a warm start with valid `(trajectory, frame)` centers is converted to
-    `(rank, local index)` centers that `convert_local_indices` maps back to the same frames -/
-theorem kmedoids_inputs_partial (w : Nat) (hw : 0 < w) (L : List Nat) (t f l : Nat)
-    (ht : L[t]? = some l) (hf : f < l) :
-    ∃ p, kmedoidsInputsMpi w L (some [(t, f)]) = .ok [p] ∧ p.1 < w ∧
-      convertLocal w L p = .ok ((L.take t).sum + f) := by
-  obtain ⟨p, hp, hpw, hc⟩ := ctrIdMpi_inverse w hw L t f l ht hf
-  refine ⟨p, ?_, hpw, hc⟩
+/-- proved part: a warm start with ANY list of valid `(trajectory, frame)` centers is converted,
+    center by center, to `(rank, local index)` centers that `convert_local_indices` maps back to
+    the same global frames `offset(trajectory) + frame` -/
+theorem kmedoids_inputs_partial (w : Nat) (hw : 0 < w) (L : List Nat) (ps : List (Nat × Nat))
+    (hv : ∀ p ∈ ps, ∃ l, L[p.1]? = some l ∧ p.2 < l) :
+    ∃ qs, kmedoidsInputsMpi w L (some ps) = .ok qs ∧
+      List.Forall₂ (fun p q => q.1 < w ∧ convertLocal w L q = .ok ((L.take p.1).sum + p.2)) ps qs := by
   unfold kmedoidsInputsMpi ctrIdsMpi
-  simp only [List.mapM_cons, List.mapM_nil, hp]
-  rfl
+  induction ps with
+  | nil => exact ⟨[], rfl, List.Forall₂.nil⟩
+  | cons p ps ih =>
+    obtain ⟨l, hl, hf⟩ := hv p List.mem_cons_self
+    obtain ⟨q, hq, hqw, hc⟩ := ctrIdMpi_inverse w hw L p.1 p.2 l hl hf
+    obtain ⟨qs, hqs, hall⟩ := ih (fun x hx => hv x (List.mem_cons_of_mem _ hx))
+    refine ⟨q :: qs, ?_, List.Forall₂.cons ⟨hqw, hc⟩ hall⟩
+    simp only at hqs ⊢
+    rw [List.mapM_cons, hq, hqs]
+    rfl
 
 theorem kmedoids_inputs_counterexample : ¬ C14_kmedoids_inputs_full := by
   intro h
@@ -172,7 +198,7 @@ theorem kmedoids_inputs_counterexample : ¬ C14_kmedoids_inputs_full := by
     equals the serial mean over the concatenated data.  (The distributed sweep itself is
     modelled in `Model/MpiPam.lean`; `mpi_pam_refines_serial`, `mpi_pam_consistent` and
     `mpi_pam_cost_antitone` below build on this cost lemma.) -/
-theorem mpi_pam_cost_partial (w : Nat) (hw : 0 < w) (L : List Nat) (hN : 0 < L.sum) (f : Nat → Rat) :
+theorem mpi_pam_cost_eq (w : Nat) (hw : 0 < w) (L : List Nat) (hN : 0 < L.sum) (f : Nat → Rat) :
     stripedMean w (fun r => (localFrames w L r).map f) =
       .ok (((List.range L.sum).map f).sum / (((List.range L.sum).map f).length : Rat)) := by
   apply stripedMean_eq w hw
@@ -332,6 +358,56 @@ theorem mpi_pam_total (w : Nat) (hw : 0 < w) (L : List Nat) (hT : w ≤ L.length
   simp only [Nat.pos_iff_ne_zero.mp hi, if_false]
   exact sweeps_total hb hm T hv nIters orc hr hs hl
 
+/-- **The pipeline composes (`hybrid(mpi_mode=True)`): distributed k-centers hands distributed
+    k-medoids exactly the premise it needs.**  On a rational table of distinct points with pairwise
+    distinct off-diagonal entries, for every world size, every striping, every cluster count `≠ 0`
+    and every radius `≥ 0`: whatever `kcenters(mpi_mode=True)` returns is the striped view
+    (`Striped`) of the state the serial `kcenters` of C01's model returns on the concatenated
+    data, and that state is `Consistent`.  (`use_triangle_inequality=True` in
+    `_kcenters_iteration_mpi` is NOT modelled; it is covered by the correspondence run only.) -/
+theorem mpi_kcenters_striped_consistent (w : Nat) (hw : 0 < w) (L : List Nat) (hT : w ≤ L.length)
+    (hpos : ∀ l ∈ L, 0 < l) (D : Table) (T : TableOK D L.sum)
+    (hd : ∀ a b c d, a < L.sum → b < L.sum → c < L.sum → d < L.sum → a ≠ b → c ≠ d → D a b = D c d →
+      (a = c ∧ b = d) ∨ (a = d ∧ b = c))
+    (k : Option Nat) (hk : k ≠ some 0) (cutoff : Rat) (hc : 0 ≤ cutoff) (fuel : Nat) (ms : MState Dist)
+    (h : mpiKcenters (stripeLayout w L) (finD D) .inf k (.fin cutoff) fuel = .ok ms) :
+    ∃ st, Ens.Cluster.kcenters D L.sum k cutoff none fuel = .ok st ∧ Consistent D L.sum st ∧
+      Striped (stripeLayout w L) (toPState (stripeLayout w L) ms) st := by
+  have hN := sum_pos_of w hw L hT hpos
+  have hb := stripeLayout_bij w hw L hT hpos
+  have hcut : ¬ Dist.fin cutoff < Dist.fin 0 := fun hh => absurd ((fin_lt_fin _ _).mp hh) (not_lt.mpr hc)
+  rcases kcenters_refines (stripeLayout w L) L.sum hN hb (finD D) (.fin 0) .inf (tieFree_of_tableOK T hd)
+      k (.fin cutoff) hcut fuel with ⟨ms', ss, h1, h2, hr⟩ | ⟨h1, _⟩
+  · rw [h] at h1
+    injection h1 with h1
+    subst h1
+    obtain ⟨st, e1, e2⟩ := serialKcenters_eq_cluster hN D k cutoff fuel h2
+    have hcons : Consistent D L.sum st :=
+      C01.kcenters_consistent T hk hc (fun cs hcs => by cases hcs) e1
+    exact ⟨st, e1, hcons, striped_of_rel hb hr e2 hcons.notFresh⟩
+  · rw [h] at h1; cases h1
+
+/-- …hence distributed k-medoids started from the distributed k-centers result — the whole of
+    `hybrid(mpi_mode=True)` — reassembles, after every sweep and at the end, to a consistent
+    clustering with the k-centers number of centers -/
+theorem mpi_hybrid_consistent (w : Nat) (hw : 0 < w) (L : List Nat) (hT : w ≤ L.length)
+    (hpos : ∀ l ∈ L, 0 < l) (D : Table) (T : TableOK D L.sum)
+    (hd : ∀ a b c d, a < L.sum → b < L.sum → c < L.sum → d < L.sum → a ≠ b → c ≠ d → D a b = D c d →
+      (a = c ∧ b = d) ∨ (a = d ∧ b = c))
+    (k : Option Nat) (hk : k ≠ some 0) (cutoff : Rat) (hc : 0 ≤ cutoff) (fuel : Nat) (ms : MState Dist)
+    (h : mpiKcenters (stripeLayout w L) (finD D) .inf k (.fin cutoff) fuel = .ok ms)
+    (nIters : Nat) (props : Option (List (Nat × Nat))) (orc : List Nat) (r : MRun)
+    (hp : mpiKmedoidsIterations (stripeLayout w L) D nIters (toPState (stripeLayout w L) ms) props orc = .ok r) :
+    ∀ x ∈ r.final :: r.sweeps, ∃ rs, reassemble w L x = .ok rs ∧ Consistent D L.sum rs ∧
+      rs.ctrInds.length = ms.ctrs.length := by
+  obtain ⟨st, _, hcons, hstr⟩ := mpi_kcenters_striped_consistent w hw L hT hpos D T hd k hk cutoff hc fuel ms h
+  have hlen : st.ctrInds.length = ms.ctrs.length := by
+    have := congrArg List.length hstr.ctrs
+    simpa [toPState] using this.symm
+  intro x hx
+  obtain ⟨rs, e1, e2, e3⟩ := mpi_pam_consistent w hw L hT hpos D T _ st hstr hcons nIters props orc r hp x hx
+  exact ⟨rs, e1, e2, by rw [e3, hlen]⟩
+
 /-- the six points of C01/C09 (`0 1 3 | 10 12 15`, centers = frames 0 and 5) dealt to 2 ranks as
     trajectories of lengths 1, 2, 3: rank 0 holds frames 0,3,4,5, rank 1 holds frames 1,2 -/
 def ms6 : PState := scatter (stripeLayout 2 [1, 2, 3]) Ex.s6 [(0, 0), (0, 3)]
@@ -400,13 +476,14 @@ example : (mpiKmedoids 2 [1, 2, 3] Ex.D6 1 ms6.arrs (.inr [0, 5]) none [1, 0]).t
 end Pam
 /-! ## striped loading -/
 
-/-- `load_h5_as_striped` / `load_npy_as_striped`, any subsampling stride `s ≥ 1`: every key /
+/-- `load_h5_as_striped` / `load_npy_as_striped`, any subsampling stride `s ≥ 1` (`row[::0]` raises
+    ValueError in the code; `everyNth 0` is not a model of it, hence the hypothesis): every key /
     file is loaded by exactly one rank (`t % w`); each rank holds the concatenation of its
     (strided) rows; the returned global lengths are the lengths of the strided rows; and the
     reassembly routine applied to what the ranks hold, with those lengths, gives back the
     whole (strided) data set. -/
 theorem load_stripes_cover {β : Type} (w : Nat) (hw : 0 < w) (rows : List (List β)) (hT : w ≤ rows.length)
-    (s : Nat) :
+    (s : Nat) (_hs : 0 < s) :
     (∀ r, r < w → loadStriped w rows s r =
         .ok (rows.map (fun row => (everyNth s row).length), ((stripe w rows r).map (everyNth s)).flatten)) ∧
     (∀ r, r < w → loadNpyStriped w rows s r = loadStriped w rows s r) ∧
@@ -515,5 +592,37 @@ theorem mpi_kcenters_tie_counterexample :
         (fun s => convertLocalIndices 2 [1, 1, 1] s.ctrs) = some (.ok [0, 2]) ∧
     (serialKcenters 3 tieD 1000 (some 2) 0 3).toOption.map (·.ctrs) = some [0, 1] := by
   decide
+
+/-! ### the hypotheses of `mpi_kcenters_striped_consistent` / `mpi_hybrid_consistent` are satisfiable -/
+
+/-- `exD` as a rational table -/
+def exQ : Ens.Cluster.Table := fun a b => (exD a b : Rat)
+
+example : Ens.Cluster.TableOK exQ 6 := by
+  constructor
+  · intro i _; simp [exQ, exD]
+  · intro i j _ _; exact Nat.cast_nonneg _
+  · intro i j _ _ h
+    have h0 : exD i j = 0 := by unfold exQ at h; exact_mod_cast h
+    by_contra hne
+    simp only [exD, hne, if_false] at h0
+    have : 0 < 2 ^ max i j := Nat.pow_pos (by decide)
+    omega
+
+example : ∀ a b c d, a < 6 → b < 6 → c < 6 → d < 6 → a ≠ b → c ≠ d → exQ a b = exQ c d →
+    (a = c ∧ b = d) ∨ (a = d ∧ b = c) := by
+  intro a b c d ha hb hc hd hab hcd he
+  have he' : exD a b = exD c d := by unfold exQ at he; exact_mod_cast he
+  have h := (by decide +kernel : ∀ a ∈ List.range 6, ∀ b ∈ List.range 6, ∀ c ∈ List.range 6,
+      ∀ d ∈ List.range 6, (a = b ∨ c = d ∨ exD a b ≠ exD c d ∨ (a = c ∧ b = d) ∨ (a = d ∧ b = c)))
+    a (List.mem_range.mpr ha) b (List.mem_range.mpr hb) c (List.mem_range.mpr hc) d (List.mem_range.mpr hd)
+  rcases h with h | h | h | h
+  · exact absurd h hab
+  · exact absurd h hcd
+  · exact absurd he' h
+  · exact h
+
+example : (mpiKcenters (stripeLayout 3 [2, 1, 1, 2]) (finD exQ) .inf (some 3) (.fin 0) 4).toOption.map (·.ctrs) =
+    some [(0, 0), (0, 3), (0, 2)] := by decide +kernel
 
 end C14
